@@ -315,6 +315,19 @@ namespace verif
             ssize_t response_size = -1;
         };
 
+        // The content type of a fixed response can also come in through two other public doors: the third argument of
+        // send(), or setMime() before it.  Taken when the spec sets no Content-Type header itself, by the body's size
+        // (no choice consumed).  0: neither, 1: argument of send(), 2: setMime().  Always text/plain.
+        inline unsigned mime_door(const RespSpec& r)
+        {
+            if (r.streamed || r.file)
+                return 0;
+            for (auto& h : r.headers)
+                if (h.name == "Content-Type")
+                    return 0;
+            return r.body.size() % 4 == 1 ? 1u : r.body.size() % 4 == 3 ? 2u : 0u;
+        }
+
         // run the spec against a ResponseWriter; `on_settled(fulfilled, value)` is called from the
         // send() promise (fixed-length only)
         template <typename Settled>
@@ -352,7 +365,12 @@ namespace verif
                 }
                 else if (!r.streamed)
                 {
-                    auto p = r.send_string ? w.send(r.code, r.body) : w.send(r.code, r.body.data(), r.body.size());
+                    const auto text_plain = Pistache::Http::Mime::MediaType(Pistache::Http::Mime::Type::Text, Pistache::Http::Mime::Subtype::Plain);
+                    const unsigned door   = mime_door(r);
+                    if (door == 2)
+                        w.setMime(text_plain);
+                    auto p = door == 1 ? (r.send_string ? w.send(r.code, r.body, text_plain) : w.send(r.code, r.body.data(), r.body.size(), text_plain))
+                                       : (r.send_string ? w.send(r.code, r.body) : w.send(r.code, r.body.data(), r.body.size()));
                     a.response_size = w.getResponseSize();
                     p.then([on_settled](ssize_t n) { on_settled(true, n); }, [on_settled](std::exception_ptr) { on_settled(false, 0); });
                 }
